@@ -22,6 +22,7 @@ CONSTANTS Frames,          \* set of frame records
           DevFirstLine,        \* as-built (open finding): body text on the fence line gets the next line's number
           DevRestoreToTop,     \* a seeded change: after an include the source is reset to the top-level file
           DevAttribution,      \* as-built before the fix: a quote directive's attribution is reported one line early
+          DevTokenMemo,        \* a seeded change: the tokens of a nested text are remembered per document and shifted again on reuse
           DevDupShift,         \* a seeded change: every nested render shifts the recorded duplicate definitions
           DevQuoteNoLine       \* as-built before the fix (approximation): the quote directive's block_quote has no line of its own
 
@@ -131,7 +132,14 @@ Exit == /\ k > Len(path) + 1 /\ k <= 2 * Len(path) + 1
 TailDef == /\ k = 2 * Len(path) + 2
         /\ LET line == pre + Height(path, leaf, 1) + 3             \* blank line, first definition, the duplicate
                 shift == IF DevDupShift THEN Len(SelectSeq(path, LAMBDA f : f.w # "quote" /\ f.w # "list")) ELSE 0   \* (grows with every nested render)
-            IN marks' = Append(marks, [what |-> "dupdef", m |-> line + shift, s |-> line, src |-> 0, ssrc |-> 0])
+                \* then two directives with the SAME body text, one after the other: the same text rendered twice.  Each
+                \* body is placed from its own fence line (line + 2 and line + 6); a token list remembered from the first
+                \* render (DevTokenMemo) has already been moved once
+                t1 == line + 3
+                t2 == line + 7
+            IN marks' = marks \o <<[what |-> "dupdef", m |-> line + shift, s |-> line, src |-> 0, ssrc |-> 0],
+                                   [what |-> "twin", m |-> t1, s |-> t1, src |-> 0, ssrc |-> 0],
+                                   [what |-> "twin", m |-> t2 + (IF DevTokenMemo THEN t1 ELSE 0), s |-> t2, src |-> 0, ssrc |-> 0]>>
         /\ k' = k + 1 /\ UNCHANGED <<path, pre, leaf, inner, base, row, src, abs, ssrc>>
 Next == EnterQuoteOrList \/ EnterDirective \/ EnterDiv \/ EnterInclude \/ Leaf \/ Exit \/ TailDef
 Spec == Init /\ [][Next]_vars /\ WF_vars(Next)
